@@ -26,6 +26,10 @@ Expression nodes (tuples, see gen/expr_gen.py for the generator):
     ("anyall", fn, (e,...))  ("anyvec", fn, x)  ("tobool", x)
     ("aidx", arr, i)  ("aidxrt", arr, e)
     ("multi", x, (part,...))      multi-part subscript x[3, 1:0]; part = ("i", k) | ("s", hi, lo); first part = msbs
+    ("iter", consumer, x)         x consumed by iteration: reverse (std.reverse_bits) stretch2 (std.stretch(x, 2))
+                                  anycomp (any([b for b in x])) allstar (all([*x])) catnot (std.concat(*[~b for b in x]))
+    select_with keys may be ("alias", spelling, value) with spelling in int/str/typed: several python keys that
+    denote the same selector value; the FIRST matching key wins
     ("src", kind, x)              operand source (value and type of x): kind in always (t = cohdl.always(x)),
                                   alwaysblock (with cohdl.always: t = x), localsig (t = Signal[T](x)),
                                   localvar (t = Variable[T](x)), fn (return value of an inlined function)
@@ -291,9 +295,12 @@ def typeof(node):
         if ta not in (BIT, BOOL) and not is_vec(ta) and ta[0] != "enum":
             raise IllTyped("sel arg")
         dom = set(domain(ta))
-        keys = [kk for kk, _ in branches]
-        if len(set(keys)) != len(keys) or not keys or any(kk not in dom for kk in keys):
+        keys = [kk for kk, _ in branches]  # python keys: equal values may occur under different spellings
+        if len(set(keys)) != len(keys) or not keys or any(key_value(kk) not in dom for kk in keys):
             raise IllTyped("sel keys")
+        for kk in keys:
+            if isinstance(kk, tuple) and kk[0] == "alias" and kk[1] == "int" and ta[0] != "u":
+                raise IllTyped("int key")
         vals = [e for _, e in branches] + ([default] if default is not None else [])
         ts = {typeof(e) for e in vals if not is_lit(e)}
         if len(ts) != 1:
@@ -318,6 +325,11 @@ def typeof(node):
         if not is_vec(typeof(node[2])):
             raise IllTyped("anyvec")
         return BOOL
+    if k == "iter":
+        t = typeof(node[2])
+        if not is_vec(t):
+            raise IllTyped("iter")
+        return {"reverse": bv(t[1]), "stretch2": bv(2 * t[1]), "catnot": bv(t[1])}.get(node[1], BOOL)
     if k == "src":
         t = typeof(node[2])
         if is_lit(node[2]) or t[0] in ("arr", "enum") or t == INT:
@@ -372,6 +384,10 @@ def convertible(src, dst):
     if ks == "s" and kd == "u":
         return False
     return wd == ws  # BitVector <-> Unsigned/Signed: same width, bit pattern
+
+
+def key_value(k):
+    return k[2] if isinstance(k, tuple) and k and k[0] == "alias" else k
 
 
 def truth_ok(t):
@@ -553,7 +569,7 @@ def evaluate(node, env):
         if av is OPEN:
             return OPEN
         for kk, e in branches:
-            if kk == av:
+            if key_value(kk) == av:  # first matching key
                 r = vals[kk]
                 return r if r is OPEN else (wrap(t, r) if is_lit(e) else r)
         if default is None:
@@ -571,6 +587,25 @@ def evaluate(node, env):
         if v is OPEN:
             return OPEN
         return (v != 0) if node[1] == "any" else (v == mask(t[1]))
+    if k == "iter":
+        t = typeof(node[2])
+        v = evaluate(node[2], env)
+        if v is OPEN:
+            return OPEN
+        w = t[1]
+        bits = [(v >> i) & 1 for i in range(w)]  # index order
+        if node[1] == "reverse":
+            return sum(b << (w - 1 - i) for i, b in enumerate(bits))
+        if node[1] == "stretch2":
+            return sum((3 * b) << (2 * i) for i, b in enumerate(bits))
+        if node[1] == "catnot":
+            # iteration visits index 0 first, the first argument of concat forms the most significant bit
+            return sum((1 - b) << (w - 1 - i) for i, b in enumerate(bits))
+        if node[1] == "anycomp":
+            return any(bits)
+        if node[1] == "allstar":
+            return all(bits)
+        raise IllTyped(node[1])
     if k == "src":
         return evaluate(node[2], env)
     if k == "multi":
